@@ -33,6 +33,9 @@ REQUIRED_FACTS = [
 
 
 def decide(ob, rec):
+    case, built = CURRENT.get("case"), CURRENT.get("built")
+    if case is not None and built is not None and built.net is CURRENT.get("net_of_last_step"):
+        O.apply_declared(ob, case["desc"], built, rec)
     if not O.admissible(ob):
         rec.count("skipped_inadmissible_values")
         return
@@ -75,16 +78,22 @@ def run(M, rec, tier, seed, k, n):
 
     def on_case(case, built):
         CURRENT["case"] = case
+        CURRENT["built"] = built
+        CURRENT["net_of_last_step"] = built.net
 
     try:
         if tier == "quick":
             W.numpy_steps(M, rec, rng, 450, draws=3, opts_prob=0.15, before_case=on_case)
             W.symbolic_steps(M, rec, rng, symvals, 45, points=2, opts_prob=0.15, before_case=on_case)
             W.closed_loop(M, rec, rng, 4, 120, before_case=on_case)
+            W.small_valid_steps(M, rec, rng, 2, before_case=on_case, seed=seed)
+            W.symbolic_param_steps(M, rec, rng, symvals, 30, before_case=on_case)
         else:
             W.numpy_steps(M, rec, rng, 3200, draws=3, opts_prob=0.15, before_case=on_case)
             W.symbolic_steps(M, rec, rng, symvals, 260, points=3, opts_prob=0.15, before_case=on_case)
             W.closed_loop(M, rec, rng, 5, 300, before_case=on_case)
+            W.small_valid_steps(M, rec, rng, 3, k, n, before_case=on_case, seed=seed)
+            W.symbolic_param_steps(M, rec, rng, symvals, 150, before_case=on_case)
     finally:
         mon.uninstall()
     if k == 0:
